@@ -725,6 +725,21 @@ func (peer *peer) handleUpdate(e *fsmMsg) ([]*table.Path, []bgp.Family, bool) {
 					paths = append(paths, path.Clone(true))
 					continue
 				}
+				// RFC4456 8. a route that already went through the local
+				// cluster has looped and is not used
+				clusterID := conf.RouteReflector.State.RouteReflectorClusterId
+				if !clusterID.IsValid() {
+					clusterID = routerId
+				}
+				if slices.Contains(path.GetClusterList(), clusterID) {
+					peer.fsm.logger.Debug("cluster list has local cluster id, ignore",
+						slog.String("ClusterID", clusterID.String()),
+						slog.String("Data", path.String()))
+
+					path.SetRejected(true)
+					paths = append(paths, path.Clone(true))
+					continue
+				}
 			}
 			paths = append(paths, path)
 		}
